@@ -1,7 +1,7 @@
 ------------------------------- MODULE JsTrace -------------------------------
 (***************************************************************************)
 (* Validation of recorded script executions against the outcomes that      *)
-(* JsWatchdog (Outcome, Returns) allows for each script class:             *)
+(* JsWatchdog (Outcome, Returns) allows for each script class ("loopcatch" is a loop that catches what is thrown at it, "loopfor" the statement for(;;){}):             *)
 (*   value  -> its value, no error;   throw / syntax -> an error;          *)
 (*   loop   -> an error, and the caller has control back within            *)
 (*             limit + Slack;                                              *)
@@ -26,7 +26,7 @@ ValueOf(e) == CASE e.path \in {"cond", "cond-or"} -> Num(1)                     
 
 \* the limit that applies: the location's own if positive, none if negative, the system default otherwise
 Limit(e) == IF e.limit_ms > 0 THEN e.limit_ms ELSE IF e.limit_ms < 0 THEN 0 ELSE e.default_ms
-Stopped(e) == Limit(e) > 0 /\ (e.class = "loop" \/ (e.class = "slow" /\ e.dur_ms > Limit(e)))
+Stopped(e) == Limit(e) > 0 /\ (e.class \in {"loop", "loopcatch", "loopfor"} \/ (e.class = "slow" /\ e.dur_ms > Limit(e)))
 
 Ok(e) ==
   /\ e.returned
